@@ -32,6 +32,7 @@
 import SF.Proofs.UnfIgnore
 import SF.Proofs.UnfGenericTop
 import SF.Gotype.Menagerie
+import SF.Proofs.UnfConsTop
 namespace SF.Props.C13
 open SF SF.Unf
 
@@ -141,3 +142,63 @@ def demo : Bool :=
 example : demo = true := by decide +kernel
 
 end SF.Props.C13
+
+
+/-! ## the typed-assignment clause for primitive targets and containers of primitives
+(proofs SF/Proofs/UnfTyVal*.lean, UnfConsTop.lean) -/
+
+namespace SF.PropsTyped.C13
+open SF SF.Unf SF.Ops.Unf
+
+/-- C13, SCALAR TARGETS.  Target of type bool, string, any integer width, float32, float64 holding
+anything, on ANY Unfolder context, and one scalar event carrying a value of its own Go type:
+whenever the specification makes a claim (`Spec.expected`: assign what matches, convert numbers
+that fit), `SetTarget` and the event are accepted, the context is exactly `c` again with the target
+holding the specified value -/
+theorem unfold_scalar_into_typed (f : Nat) (tbl : TypeTable) (t : GoType) (k : PK) (v0 : GoVal) (c : Ctx) (s : Sc)
+    (want : GoVal) (hk : PK.ofExact? t = some k) (hki : k ≠ .ifc) (hs : s.inRange = true)
+    (hexp : Spec.expected tbl t v0 (.sc s) = some want) :
+    ∃ c₀ got, setTarget tbl t v0 c = .ok c₀ ∧
+      run (f + 1) [.scalar s] c₀ = .ok () { c with target := got, env := tbl } ∧
+      Spec.sameVal got want = true ∧ ((∀ nk, t = .int nk → normKind nk = nk) → got = want) :=
+  SF.UnfProofs.Cons.unfold_scalar_into_typed f tbl t k v0 c s want hk hki hs hexp
+
+/-- C13, `[]T` TARGETS (`T` primitive): target holding any slice value, idle Unfolder, a well-formed
+array of scalars (announced length -1, 0 … the real count): whenever the specification makes a
+claim, everything is accepted, the context is exactly `c` again, and the target holds exactly the
+stream's elements, converted — nothing left of the old elements -/
+theorem unfold_array_into_prim_slice (f : Nat) (tbl : TypeTable) (e : GoType) (k : PK) (v0 : GoVal) (c : Ctx)
+    (l : Int) (bt : Nat) (scs : List Sc) (want : GoVal) (hk : PK.ofExact? e = some k) (hki : k ≠ .ifc)
+    (hv0 : isSliceVal v0) (hidle : c.unfolder.stack = []) (hl : l ≤ (scs.length : Int))
+    (hs : ∀ s ∈ scs, s.inRange = true)
+    (hexp : Spec.expected tbl (.slice e) v0 (.arr bt (scs.map Spec.STree.sc)) = some want) :
+    ∃ c₀ got, setTarget tbl (.slice e) v0 c = .ok c₀ ∧
+      run (f + 1) (.arrStart l bt :: scs.map UEv.scalar ++ [.arrEnd]) c₀ = .ok () { c with target := got, env := tbl } ∧
+      Spec.sameVal got want = true :=
+  SF.UnfProofs.Cons.unfold_array_into_prim_slice f tbl e k v0 c l bt scs want hk hki hv0 hidle hl hs hexp
+
+/-- C13, `map[string]T` TARGETS: target holding any map value, a well-formed object of scalars:
+the old entries, with the stream's members put in stream order (merge, not replace) -/
+theorem unfold_object_into_prim_map (f : Nat) (tbl : TypeTable) (e : GoType) (k : PK) (v0 : GoVal) (et : GoType)
+    (olds : List (Bytes × GoVal)) (c : Ctx) (l : Int) (bt : Nat) (mems : List (Bytes × Sc)) (want : GoVal)
+    (hk : PK.ofExact? e = some k) (hki : k ≠ .ifc) (hv0 : mapParts v0 = some (et, olds))
+    (hidle : c.unfolder.stack = []) (hs : ∀ m ∈ mems, m.2.inRange = true)
+    (hexp : Spec.expected tbl (.map e) v0 (.obj bt (memberTrees mems)) = some want) :
+    ∃ c₀ got, setTarget tbl (.map e) v0 c = .ok c₀ ∧
+      run (f + 1) (.objStart l bt :: memberEvents mems ++ [.objEnd]) c₀ =
+        .ok () { c with target := got, env := tbl } ∧
+      Spec.sameVal got want = true :=
+  SF.UnfProofs.Cons.unfold_object_into_prim_map f tbl e k v0 et olds c l bt mems want hk hki hv0 hidle hs hexp
+
+/-- non-vacuity: `OnUint16(300)` into an `int64` holding 7: the specification makes a claim, and
+the mirror evaluated -/
+example :
+    (Spec.assign (fun _ => none) false 5 (.int .i64) (.int .i64 7) (.sc (.num .u16 300))).isSome = true ∧
+    (match setTarget (fun _ => none) (.int .i64) (.int .i64 7) newUnfolder with
+     | .ok c₀ =>
+       (match run 1 [.scalar (.num .u16 300)] c₀ with
+        | .ok _ c₁ => (match c₁.target with | .int .i64 300 => true | _ => false) && c₁.depths == [0, 0, 0, 0, 0, 0]
+        | _ => false)
+     | .error _ => false) = true := by decide +kernel
+
+end SF.PropsTyped.C13
